@@ -56,10 +56,10 @@ func runSelftest() int {
 	c.Eng.MaxSteps = 3_000_000
 	type cmp struct {
 		name, src, entry string
-		params          []Param
-		results         []string
-		strlen          map[string]int
-		vec             gosx.Model
+		params           []Param
+		results          []string
+		strlen           map[string]int
+		vec              gosx.Model
 	}
 	var cases []cmp
 	for i, s := range testTableSnippets() {
